@@ -75,7 +75,7 @@ bool exec_apply(ExecCtx &c) {
                   V v2(Support(x.getSupport().getGrid(), v.getSupport().getStartIndex(),
                                v.getSupport().getEndIndex()),
                        v.getCoefficients());
-                  with_factor_recipe(r, v2, [&](auto &&o) { h2 = hash_spline(o * x); });
+                  with_factor_recipe(r, v2, [&](auto &&o) { h2 = hash_spline_wc(o * x); });
                   have_twin = true;
                 } catch (const std::exception &) {
                 }
@@ -83,7 +83,7 @@ bool exec_apply(ExecCtx &c) {
               libcall(out, [&] {
                 with_factor_recipe(r, v, [&](auto &&o) {
                   auto res = o * x;
-                  reshash = hash_spline(res);
+                  reshash = hash_spline_wc(res);
                   have = true;
                   store_result(c, dst, std::move(res));
                 });
